@@ -290,6 +290,20 @@ def _grid_case(arg):
             g.integrate_angular_coordinates(f2.copy())
             after = (np.asarray(i1(q), dtype=float), np.asarray(i1(q, deriv=1), dtype=float), np.asarray(a1(rp), dtype=float),
                      np.asarray(s1[0](rp), dtype=float))
+    # every routine is linear in the function values: the same answers, scaled, for 1e-20 f and 1e12 f (no absolute
+    # "negligible" thresholds)
+    with warnings.catch_warnings():
+        warnings.simplefilter("ignore")
+        with np.errstate(all="ignore"):
+            for sfac in (1e-20, 1e12):
+                res.count()
+                i_s = np.asarray(g.interpolate(sfac * f1)(q), dtype=float) / sfac
+                a_s = np.asarray(g.integrate_angular_coordinates(sfac * f1), dtype=float) / sfac
+                a_1 = np.asarray(g.integrate_angular_coordinates(f1.copy()), dtype=float)
+                if _gt(np.max(np.abs(i_s - before[0])), 1e-11 * (np.max(np.abs(before[0])) + 1e-300)) or \
+                        _gt(np.max(np.abs(a_s - a_1)), 1e-12 * (np.max(np.abs(a_1)) + 1e-300)):
+                    res.violation("homogeneity:not-linear-in-the-function-values", f"interpolation or angular integration of {sfac:g} f is not "
+                                  f"{sfac:g} times that of f", case)
     if not all(x.shape == y.shape and np.array_equal(x, y, equal_nan=True) for x, y in zip(before, after)):
         res.violation("history:earlier-result-changed-by-later-call", "an interpolant / spherical average / spline list obtained for one "
                       "function gives different values after the same grid was used for another function", case)
